@@ -3479,6 +3479,15 @@ def cli_main():
         path = os.path.join(root, 'definitions')
         include_dirs.append(path)
 
+    # validate the hex offset (and its converter) before anything is written
+    if args.hex_offset:
+        from intelhex import bin2hex
+
+        try:
+            hex_offset = int(args.hex_offset, base=0)
+        except ValueError:
+            raise SystemExit('invalid hex offset: {}'.format(args.hex_offset))
+
     constants = {}
     labels = {}
     try:
@@ -3505,14 +3514,7 @@ def cli_main():
 
     # output an additional file in the Intel HEX format at the given offset
     if args.hex_offset:
-        from intelhex import bin2hex
-
-        try:
-            offset = int(args.hex_offset, base=0)
-        except:
-            raise SystemExit('invalid hex offset: {}'.format(args.hex_offset))
-
-        bin2hex(args.output, args.output + '.hex', offset)
+        bin2hex(args.output, args.output + '.hex', hex_offset)
 
 
 if __name__ == '__main__':
